@@ -135,6 +135,7 @@ fn run_spec(spec: &Spec) -> common::Report {
         "sock-buf" => sock::buffered(spec),
         "sock-faults" => sock::stats_faults(spec),
         "spyq" => sock::spy_bounded(spec),
+        "sock-volume" => sock::stats_volume(spec),
         "clientflush" => sock::client_flush(spec),
         other => {
             let mut r = common::Report::new(&spec.raw);
